@@ -268,7 +268,7 @@ def checkFlow (p : Prog) (sc : Scenario) (defaultConc : Nat) (o : Obs) : List Di
     if (o.results.lookup i) != some "unset" then [("results", s!"result {i} = {o.results.lookup i} want unset")] else []
   let main :=
     if before then
-      (if o.ret != ["ctx"] then [("ret", s!"cancel=before: ret {o.ret} want [ctx]")] else []) ++ unset
+      (if o.ret != ["ctx"] then [("cancel.ret", s!"cancel=before: ret {o.ret} want [ctx]")] else []) ++ unset
     else if fails.isEmpty && !cancelActive then
       (if !o.ret.isEmpty then [("ret", s!"ret {o.ret} want nil")] else []) ++
       ks.flatMap mustCallJob ++
@@ -289,7 +289,7 @@ def checkFlow (p : Prog) (sc : Scenario) (defaultConc : Nat) (o : Obs) : List Di
                 (if (obsPCall r).isEmpty then [("calls", s!"predicate {r} must be called")] else [])
               else mustCallJob r)
            | none => []
-       | _ => [("ret", s!"ret {o.ret} want exactly one entry of {allowed}")]) ++ unset
+       | _ => [(if cancelActive then "cancel.ret" else "ret", s!"ret {o.ret} want exactly one entry of {allowed}")]) ++ unset
   let events :=
     if p.emitters == 0 && o.ev.isEmpty then [] else
       let tasks := (p.tasks.filter (p.taskInstrumented ·)).map fun t =>
@@ -380,7 +380,7 @@ def checkPar (p : Prog) (sc : Scenario) (defaultConc : Nat) (o : Obs) : List Div
   let must := fun (line : String) => if obsLines.contains line then [] else [("calls", s!"[{line}] must be called")]
   let retDivs :=
     if before then
-      (if o.ret.isEmpty then [("ret", "cancel=before: ret nil")] else []) ++
+      (if o.ret.isEmpty then [("cancel.ret", "cancel=before: ret nil")] else []) ++
       (o.ret.flatMap fun e => if e != "ctx" then [("ret", s!"cancel=before: ret entry {e} want ctx")] else []) ++
       (if !coe && o.ret.length > 1 then [("ret", s!"fail-fast: {o.ret.length} entries")] else [])
     else if let some (cs, ci) := sc.cancelSl then
@@ -396,7 +396,7 @@ def checkPar (p : Prog) (sc : Scenario) (defaultConc : Nat) (o : Obs) : List Div
         then [("cancel", s!"cancel=sl:{cs}:{ci}: every element of the slice was called, one of them cancelled the context, and the directive returned nil")] else [])
     else match cancelK with
     | some ck =>
-      (if o.ret.isEmpty then [("ret", s!"cancel=in:{ck}: ret nil")] else []) ++
+      (if o.ret.isEmpty then [("cancel.ret", s!"cancel=in:{ck}: ret nil")] else []) ++
       ((o.ret.filter (· != "ctx")).eraseDups.flatMap fun e =>
         (if !C.contains e then [("ret", s!"ret entry {e} is not a possible failure {C}")] else []) ++
         (if (o.ret.filter (· == e)).length > (C.filter (· == e)).length then [("ret", s!"ret entry {e} reported twice")] else [])) ++
@@ -482,6 +482,12 @@ def checkStatic (p : Prog) (toks : List String) : List Div :=
    | some "ok" | some "na" => []
    | some h => [("static.shared", s!"pid {p.pid}: {h}")]
    | none => [("static.shared", s!"pid {p.pid}: missing")]) ++
+  -- the same package generated with an additional user-supplied build tag (`-tags verifextra`): the cff tag
+  -- still applies, so the output is there and is the same
+  (match kv rest "tagsrun" with
+   | some "1" | some "na" => []
+   | some h => [("static.tagsrun", s!"pid {p.pid}: a run with an extra -tags value gave {h}")]
+   | none => [("static.tagsrun", s!"pid {p.pid}: missing")]) ++
   (if !kvB rest "deterministic" then [("static.deterministic", s!"pid {p.pid}")] else []) ++
   (if (kv rest "sourcemap_same") == some "0" then [("static.sourcemap", s!"pid {p.pid}")] else []) ++
   (if (kv rest "modifier_compiles") == some "0" then [("modifier", s!"pid {p.pid}: modifier-mode output does not compile")] else [])
